@@ -1490,7 +1490,13 @@ class AstEval:
 
     async def ast_delete(self, arg):
         """Execute del statement."""
-        for arg1 in arg.targets:
+        targets = list(arg.targets)
+        while targets:
+            arg1 = targets.pop(0)
+            if isinstance(arg1, (ast.Tuple, ast.List)):
+                # del (a, b) deletes each element, left to right
+                targets = list(arg1.elts) + targets
+                continue
             if isinstance(arg1, ast.Subscript):
                 var = await self.aeval(arg1.value)
                 del var[await self.aeval(arg1.slice)]
